@@ -30,6 +30,7 @@ EXPLANATION = (
     "(D3i) the number of copies is computed in integer arithmetic (no rounding of a floating-point quotient); (D6c) shot Counters are only ever merged by addition (| and & take max / min)."
     " Round 4: the random draw pairs the dictionary's keys() with its values(), neither side re-ordered."
     ' Round 5: the deficit recorded by _check_sample_elimination is the whole deficit of a pass (break after one outcome, or accumulation).'
+    ' Round 6: (D8) no anchored function reads the variable of a finished loop inside a later loop or comprehension.'
 )
 RULE_TEXT = "instances = guards, chunking/zip/aggregate sites, 960 grid points of the expansion formula, recombination comprehensions, rounding/top-up/removal sites, (function, parameter) purity pairs"
 ASSUMPTIONS = [
